@@ -2721,8 +2721,21 @@ def expand_new_properties(trees: Dict[str, ast.Module]) -> List[str]:
                     if len(body) == 1 and isinstance(body[0], ast.Return) and body[0].value is not None and len(m.args.args) == 1:
                         # the expression may only mention self (and literals / builtins)
                         names = {n.id for n in ast.walk(body[0].value) if isinstance(n, ast.Name)}
-                        if names <= {m.args.args[0].arg, "len", "int", "str", "min", "max", "sum", "bool"}:
+                        if names <= {m.args.args[0].arg, "len", "int", "str", "min", "max", "sum", "bool", "bytes", "float", "abs", "round"}:
                             props.setdefault(m.name, []).append((m.args.args[0].arg, body[0].value))
+    # an attribute of that name defined otherwise anywhere (class-level field, `x.name = ...` store) makes the name ambiguous
+    for t in trees.values():
+        for n_ in ast.walk(t):
+            if isinstance(n_, ast.ClassDef):
+                for m_ in n_.body:
+                    if isinstance(m_, ast.AnnAssign) and isinstance(m_.target, ast.Name) and m_.target.id in props:
+                        all_attr_names[m_.target.id] = all_attr_names.get(m_.target.id, 0) + 1
+                    elif isinstance(m_, ast.Assign):
+                        for t_ in m_.targets:
+                            if isinstance(t_, ast.Name) and t_.id in props:
+                                all_attr_names[t_.id] = all_attr_names.get(t_.id, 0) + 1
+            elif isinstance(n_, ast.Attribute) and isinstance(n_.ctx, ast.Store) and n_.attr in props:
+                all_attr_names[n_.attr] = all_attr_names.get(n_.attr, 0) + 1
     # same-named properties on several classes are fine when they have the same body (e.g. MDF.short_hash and SDF.short_hash)
     usable = {}
     for k, v in props.items():
@@ -2783,6 +2796,24 @@ def expand_new_properties(trees: Dict[str, ast.Module]) -> List[str]:
             return l + r if l and r else []
         return []
 
+    # `self.message_defs: Dict[str, MDF] = {}`: what iterating `<x>.message_defs.values()` yields
+    elem_types: Dict[str, List[str]] = {}
+    for t in trees.values():
+        for n_ in ast.walk(t):
+            if isinstance(n_, ast.AnnAssign) and isinstance(n_.target, ast.Attribute) and isinstance(n_.annotation, ast.Subscript):
+                kind_ = ast.unparse(n_.annotation.value).split(".")[-1]
+                sl_ = n_.annotation.slice
+                el_ = None
+                if kind_ in ("Dict", "dict", "OrderedDict", "DefaultDict") and isinstance(sl_, ast.Tuple) and len(sl_.elts) == 2:
+                    el_ = sl_.elts[1]
+                elif kind_ in ("List", "list", "Set", "set", "Tuple", "Sequence"):
+                    el_ = sl_.elts[0] if isinstance(sl_, ast.Tuple) else sl_
+                cl_ = ann_classes(el_) if el_ is not None else []
+                if cl_:
+                    if n_.target.attr in elem_types and elem_types[n_.target.attr] != cl_:
+                        elem_types[n_.target.attr] = []
+                    else:
+                        elem_types[n_.target.attr] = cl_
     typed = {k for k in props if k not in usable}
     if not usable and not by_class:
         return []
@@ -2799,6 +2830,27 @@ def expand_new_properties(trees: Dict[str, ast.Module]) -> List[str]:
             self.generic_visit(f)
             self.params.pop()
             return f
+
+        def visit_For(self, lp):
+            it = lp.iter
+            cl_: List[str] = []
+            if isinstance(lp.target, ast.Name) and self.params:
+                if isinstance(it, ast.Call) and isinstance(it.func, ast.Attribute) and it.func.attr == "values" and not it.args and isinstance(it.func.value, ast.Attribute):
+                    cl_ = elem_types.get(it.func.value.attr, [])
+                elif isinstance(it, ast.Attribute):
+                    cl_ = elem_types.get(it.attr, [])
+            if cl_:
+                env = self.params[-1]
+                had = env.get(lp.target.id)
+                env[lp.target.id] = cl_
+                self.generic_visit(lp)
+                if had is None:
+                    env.pop(lp.target.id, None)
+                else:
+                    env[lp.target.id] = had
+                return lp
+            self.generic_visit(lp)
+            return lp
 
         def visit_Attribute(self, n):
             self.generic_visit(n)
@@ -2827,6 +2879,25 @@ def hex_digest_spellings(trees: Dict[str, ast.Module]) -> List[str]:
     done: List[str] = []
 
     class H(ast.NodeTransformer):
+        def visit_Call(self, n):
+            self.generic_visit(n)
+            # int.from_bytes(bytes.fromhex(<x>.hash)[:K], "big")  ==  int(<x>.hash[:2K], 16)   (a hex digest: two digits per byte)
+            if isinstance(n.func, ast.Attribute) and n.func.attr == "from_bytes" and isinstance(n.func.value, ast.Name) and n.func.value.id == "int" \
+                    and 1 <= len(n.args) <= 2 and all(k.arg in ("byteorder", "signed") for k in n.keywords):
+                order = n.args[1] if len(n.args) == 2 else next((k.value for k in n.keywords if k.arg == "byteorder"), None)
+                signed = next((k.value for k in n.keywords if k.arg == "signed"), None)
+                a0 = n.args[0]
+                if isinstance(order, ast.Constant) and order.value == "big" and (signed is None or (isinstance(signed, ast.Constant) and signed.value is False)) \
+                        and isinstance(a0, ast.Subscript) and isinstance(a0.slice, ast.Slice) and a0.slice.lower is None and a0.slice.step is None \
+                        and isinstance(a0.slice.upper, ast.Constant) and isinstance(a0.slice.upper.value, int) \
+                        and isinstance(a0.value, ast.Call) and ast.unparse(a0.value.func) == "bytes.fromhex" and len(a0.value.args) == 1 \
+                        and isinstance(a0.value.args[0], ast.Attribute) and a0.value.args[0].attr == "hash":
+                    k = a0.slice.upper.value
+                    done.append(f"int.from_bytes(bytes.fromhex(<hash>)[:{k}], 'big') read as int(<hash>[:{2 * k}], 16)")
+                    sl = ast.Subscript(value=a0.value.args[0], slice=ast.Slice(lower=None, upper=ast.Constant(value=2 * k), step=None), ctx=ast.Load())
+                    return ast.copy_location(ast.Call(func=ast.Name(id="int", ctx=ast.Load()), args=[sl, ast.Constant(value=16)], keywords=[]), n)
+            return n
+
         def visit_FormattedValue(self, n):
             self.generic_visit(n)
             v = n.value
